@@ -21,6 +21,7 @@ import lib
 
 PROP = "C09"
 UN = 0  # the "unbound" pseudo definition
+EXC = -1  # pseudo definition: bound by `except ... as v` (all handlers alike)
 VARS = {"x": 1, "y": 2}
 
 # ---------------------------------------------------------------------------
@@ -93,8 +94,10 @@ def subblocks(s):
         return [s[1], s[2]]
     if k in ("while", "for"):
         return [s[1], s[2]]
-    if k == "forlit":
+    if k in ("forlit", "fort"):
         return [s[-2], s[-1]]
+    if k == "witht":
+        return [s[-1]]
     if k == "whiletrue":
         return [s[1]]
     if k == "with":
@@ -104,29 +107,44 @@ def subblocks(s):
     return []
 
 
-def extify(block, rng):
-    """widen a skeleton beyond the model grammar: some for-loops become `for v in (K,):` -- a loop
-    over a one-element literal tuple: always entered, and the target v is bound to the literal K"""
+def extify(block, rng, mode="forlit"):
+    """widen a skeleton.  mode "forlit": some for-loops become `for v in (K,):` (always entered, target
+    bound to the literal K; outside the model grammar).  mode "targets": `for v in seql(K):` and
+    `with cml(K) / supl(K) as v:` -- binding targets, inside the model (the target is an assignment at the
+    start of the loop body / before the with block, exactly where visit_For / visit_withitem make it).
+    mode "excas": `except Exception as v:` handlers (v bound to the exception on entry and unbound when
+    the handler is left; outside the model grammar)."""
     out = []
     for s in block:
         k = s[0]
         if k == "if":
-            s = ("if", extify(s[1], rng), extify(s[2], rng))
+            s = ("if", extify(s[1], rng, mode), extify(s[2], rng, mode))
         elif k in ("while", "for"):
-            b, e = extify(s[1], rng), extify(s[2], rng)
-            s = ("forlit", rng.choice("xy"), b, e) if rng.random() < 0.6 else (k, b, e)
+            b, e = extify(s[1], rng, mode), extify(s[2], rng, mode)
+            if mode == "targets":
+                s = ("fort", rng.choice("xy"), b, e) if rng.random() < 0.6 else (k, b, e)
+            else:
+                s = ("forlit", rng.choice("xy"), b, e) if rng.random() < 0.6 else (k, b, e)
         elif k == "whiletrue":
-            s = (k, extify(s[1], rng))
+            s = (k, extify(s[1], rng, mode))
         elif k == "with":
-            s = (k, s[1], extify(s[2], rng))
+            b = extify(s[2], rng, mode)
+            s = ("witht", s[1], rng.choice("xy"), b) if (mode == "targets" and rng.random() < 0.6) else (k, s[1], b)
         elif k == "try":
-            s = (k, extify(s[1], rng), [extify(h, rng) for h in s[2]], extify(s[3], rng), extify(s[4], rng))
+            hs = [extify(h, rng, mode) for h in s[2]]
+            if mode == "excas":
+                hs = [[("excbind", rng.choice("xy"))] + h if rng.random() < 0.7 else h for h in hs]
+            s = (k, extify(s[1], rng, mode), hs, extify(s[3], rng, mode), extify(s[4], rng, mode))
         out.append(s)
     return out
 
 
 def in_model_grammar(block):
-    return all(s[0] != "forlit" and all(in_model_grammar(b) for b in subblocks(s)) for s in block)
+    return all(s[0] not in ("forlit", "excbind") and all(in_model_grammar(b) for b in subblocks(s)) for s in block)
+
+
+def has_excbind(block):
+    return any(s[0] == "excbind" or any(has_excbind(b) for b in subblocks(s)) for s in block)
 
 
 def size(block):
@@ -158,7 +176,7 @@ def number(block, ctr, ind, out, mode="analysis"):
             if mode == "analysis":
                 out.append(f"{pad}reveal_type({s[1]})")
             else:
-                out.append(f"{pad}_use({ln}, locals().get('{s[1]}', 0))")
+                out.append(f"{pad}_use({ln}, _val(locals().get('{s[1]}', 0)))")
             res.append(("use", s[1], ln))
         elif k == "call":
             out.append(f"{pad}g()")
@@ -191,6 +209,24 @@ def number(block, ctr, ind, out, mode="analysis"):
                 out.append(f"{pad}else:")
                 e = number(s[2], ctr, ind + 1, out, mode)
             res.append((k, b, e))
+        elif k == "excbind":
+            res.append(s)  # rendered in the handler header
+        elif k == "fort":
+            ctr[0] += 1
+            lit = ctr[0]
+            out.append(f"{pad}for {s[1]} in seql({lit}):")
+            b = number(s[-2], ctr, ind + 1, out, mode)
+            e = []
+            if s[-1]:
+                out.append(f"{pad}else:")
+                e = number(s[-1], ctr, ind + 1, out, mode)
+            res.append(("fort", s[1], lit, b, e))
+        elif k == "witht":
+            ctr[0] += 1
+            lit = ctr[0]
+            out.append(f"{pad}with {'supl' if s[1] else 'cml'}({lit}) as {s[2]}:")
+            b = number(s[-1], ctr, ind + 1, out, mode)
+            res.append(("witht", s[1], s[2], lit, b))
         elif k == "forlit":
             ctr[0] += 1
             lit = ctr[0]
@@ -214,7 +250,12 @@ def number(block, ctr, ind, out, mode="analysis"):
             b = number(s[1], ctr, ind + 1, out, mode)
             hs = []
             for h in s[2]:
-                out.append(f"{pad}except Exception:")
+                if h and h[0][0] == "excbind":
+                    out.append(f"{pad}except Exception as {h[0][1]}:")
+                    if len(h) == 1:
+                        out.append(f"{pad}    pass")
+                else:
+                    out.append(f"{pad}except Exception:")
                 hs.append(number(h, ctr, ind + 1, out, mode))
             e = []
             f = []
@@ -240,7 +281,18 @@ def render(block, name="f", mode="analysis", global_x=False):
 
 
 PRELUDE = '''\
+from typing import Generic, TypeVar
+_T = TypeVar("_T")
 gx = 0
+def seql(x: _T) -> list[_T]: return []
+class cml(Generic[_T]):
+    def __init__(self, v: _T) -> None: self.v = v
+    def __enter__(self) -> _T: return self.v
+    def __exit__(self, *a: object) -> None: pass
+class supl(Generic[_T]):
+    def __init__(self, v: _T) -> None: self.v = v
+    def __enter__(self) -> _T: return self.v
+    def __exit__(self, *a: object) -> bool: return True
 def cond() -> bool: return True
 def seq() -> list[int]: return []
 def g() -> None: pass
@@ -259,7 +311,10 @@ class nosup:
 def coq_block(block):
     out = "BNil"
     for s in reversed(block):
-        out = f"(BCons {coq_stmt(s)} {out})"
+        if s[0] == "witht":  # the target is bound by visit_withitem, before the (suppressing) block
+            out = f"(BCons (SAssign {VARS[s[2]]} {s[3]}) (BCons (SWith {lib.cbool(s[1])} {coq_block(s[4])}) {out}))"
+        else:
+            out = f"(BCons {coq_stmt(s)} {out})"
     return out
 
 
@@ -282,6 +337,8 @@ def coq_stmt(s):
         return f"(SIf {coq_block(s[1])} {coq_block(s[2])})"
     if k in ("while", "for"):
         return f"(SLoop false {coq_block(s[1])} {coq_block(s[2])})"
+    if k == "fort":  # the target is bound at the start of every visit of the body
+        return f"(SLoop false (BCons (SAssign {VARS[s[1]]} {s[2]}) {coq_block(s[3])}) {coq_block(s[4])})"
     if k == "whiletrue":
         return f"(SLoop true {coq_block(s[1])} BNil)"
     if k == "with":
@@ -352,6 +409,8 @@ def impl_run(funcs):
                 rec["text"] = t
                 rec["un"] = "Any[error]" in t
                 rec["defs"] = set(int(x) for x in re.findall(r"-?\d+", re.sub(r"Any\[\w+\]", "", t)))
+                if re.search(r"\bException\b", t):
+                    rec["defs"].add(EXC)
             elif code == "undefined_name":
                 rec["undef"] = True
             elif code == "possibly_undefined_name":
@@ -471,6 +530,16 @@ class Flow:
             if self.mode == "liberal":
                 after = _join(after, H)
             r["norm"] = after
+        elif k == "excbind":
+            E2 = dict(E)
+            E2[s[1]] = frozenset([EXC])
+            r["norm"] = E2
+        elif k == "fort":
+            r = self.stmt(("for", [("assign", s[1], s[2])] + s[3], s[4]), E, intry)
+        elif k == "witht":
+            E2 = dict(E)
+            E2[s[2]] = frozenset([s[3]])
+            r = self.stmt(("with", s[1], s[4]), E2, intry)
         elif k == "forlit":
             # for v in (K,): -- exactly one round in CPython (strict); the liberal reading treats it
             # like any loop (any number of rounds, zero included) whose head binds v to K
@@ -527,6 +596,8 @@ class Flow:
             if b["exc"] is not None:
                 for h in hs:
                     hr = self.block(h, b["exc"], prot)
+                    if h and h[0][0] == "excbind":  # the name is unbound when the handler is left, however it is left
+                        hr = {o: (None if hr[o] is None else {**hr[o], h[0][1]: frozenset([UN])}) for o in OUTS}
                     for o in OUTS:
                         outs[o] = _join(outs[o], hr[o])
                 outs["exc"] = _join(outs["exc"], b["exc"])
@@ -566,8 +637,16 @@ def _next():
     return s[i % len(s)] if s else 0
 def cond(): return bool(_next() & 1)
 def seq(): return [0] * (_next() % 3)
+def seql(k): return [k] * (_next() % 3)
+class cml:
+    def __init__(self, v): self.v = v
+    def __enter__(self): return self.v
+    def __exit__(self, t, v, tb): return None
+class supl(cml):
+    def __exit__(self, t, v, tb): return t is not None and issubclass(t, Exception)
 def g():
     if _next() & 1: raise ValueError("scripted")
+def _val(v): return v if isinstance(v, int) else -1
 def _use(line, val):
     if not _S["stopped"]: _S["seen"].add((line, val))
 class sup:
@@ -604,6 +683,7 @@ def executed_pairs(block, rng, nscripts):
 # evaluated for every case, these exist only to describe classes in messages)
 
 LOWER_FINDINGS = {
+    "C09-except-as-unbind": "`except E as v` unbinds v when the handler is left; the checker keeps v bound to the exception (and to earlier definitions) after the handler and reports no possibly-undefined name",
     "C09-dead-code-after-break": "a statement follows break/continue in its block: the dead code rewrites the scope already registered as a loop exit, so a definition live at the break is lost after the loop",
     "C09-jump-through-finally": "break/continue leaving a try statement that has a finally clause: the loop exit scope is taken before the finally block (assignments made in finally are missing after the loop), and a break/continue inside the finally block reaches the loop exit only from the no-exception state",
 }
@@ -624,6 +704,8 @@ def sets_ll(s):
         return True
     if s[0] == "with" and not s[1]:
         return any(sets_ll(t) for t in s[2])
+    if s[0] == "witht" and not s[1]:
+        return any(sets_ll(t) for t in s[-1])
     return False
 
 
@@ -635,7 +717,7 @@ def free_jump(block):
         if k in ("while", "for"):
             if free_jump(s[2]):
                 return True
-        elif k == "forlit":
+        elif k in ("forlit", "fort"):
             if free_jump(s[-1]):
                 return True
         elif k == "whiletrue":
@@ -665,6 +747,8 @@ def py_can_complete(s):
         return False
     if k == "with":
         return py_cc_b(s[2]) or bool(s[1])
+    if k == "witht":
+        return py_cc_b(s[-1]) or bool(s[1])
     if k == "try":
         return ((py_cc_b(s[1]) and py_cc_b(s[3])) or any(py_cc_b(h) for h in s[2])) and py_cc_b(s[4])
     return True
@@ -681,7 +765,7 @@ def py_upper_ok(block):
         k = s[0]
         if k in ("break", "continue", "whiletrue"):
             return False
-        if k in ("while", "for", "forlit") and s[-1]:
+        if k in ("while", "for", "forlit", "fort") and s[-1]:
             return False
         if k == "try" and (s[4] or not (py_cc_b(s[1]) or not s[3])):
             return False
@@ -693,6 +777,8 @@ def py_upper_ok(block):
 
 
 def lower_class(block):
+    if has_excbind(block):
+        return "C09-except-as-unbind"
     if not jumps_last(block):
         return "C09-dead-code-after-break"
     if not no_jump_through_finally(block):
@@ -704,7 +790,9 @@ def lower_class(block):
 
 
 def gen_files():
-    return {}
+    from translate import scopes as tr_scopes
+
+    return {"Scopes.v": tr_scopes.translate(str(lib.REPO))}
 
 
 def load_corpus():
@@ -725,8 +813,12 @@ def to_block(j):
             out.append((k, to_block(s[1]), to_block(s[2])))
         elif k in ("while", "for"):
             out.append((k, to_block(s[1]), to_block(s[2])))
-        elif k == "forlit":
+        elif k in ("forlit", "fort"):
             out.append((k, s[1], to_block(s[-2]), to_block(s[-1])))
+        elif k == "witht":
+            out.append((k, bool(s[1]), s[2], to_block(s[-1])))
+        elif k == "excbind":
+            out.append((k, s[1]))
         elif k == "whiletrue":
             out.append((k, to_block(s[1])))
         elif k == "with":
@@ -748,8 +840,12 @@ def strip_ids(block):
             out.append((k, strip_ids(s[1]), strip_ids(s[2])))
         elif k in ("while", "for"):
             out.append((k, strip_ids(s[1]), strip_ids(s[2])))
-        elif k == "forlit":
+        elif k in ("forlit", "fort"):
             out.append((k, s[1], strip_ids(s[-2]), strip_ids(s[-1])))
+        elif k == "witht":
+            out.append((k, s[1], s[2], strip_ids(s[-1])))
+        elif k == "excbind":
+            out.append((k, s[1]))
         elif k == "whiletrue":
             out.append((k, strip_ids(s[1])))
         elif k == "with":
@@ -788,7 +884,13 @@ def small_exhaustive(limit):
 def run(tier: str, replay: str | None = None):
     rep = lib.Report(PROP, tier, "proof")
     rng = random.Random(lib.seed() * 104729 + 9)
-    proof = lib.prove(PROP, gen_files(), thorough=(tier == "thorough"))
+    broken_translation = None
+    try:
+        gen = gen_files()
+    except Exception as ex:  # TranslateError or a source file that no longer parses
+        broken_translation = f"{type(ex).__name__}: {ex}"
+        gen = None
+    proof = lib.prove(PROP, gen, thorough=(tier == "thorough"))
 
     # ---- cases
     blocks = []
@@ -821,6 +923,16 @@ def run(tier: str, replay: str | None = None):
                 b = tidy(b)
             blocks.append(extify(b, rng))
             origin.append("ext")
+        for i in range(n_ext):
+            b = gen_block(rng, rng.choice([2, 3, 3]), False)
+            if i % 2:
+                b = tidy(b)
+            blocks.append(extify(b, rng, "targets"))
+            origin.append("targets")
+        for i in range(n_ext // 3):
+            b = gen_block(rng, rng.choice([2, 3]), False)
+            blocks.append(extify(tidy(b) if i % 2 else b, rng, "excas"))
+            origin.append("excas")
 
     numbered = []
     funcs = []
@@ -873,7 +985,7 @@ def run(tier: str, replay: str | None = None):
         if has_model:
             m_uses, lo_ok, up_ok = model[i]
         else:  # outside the model grammar: oracle only, python mirrors of the guards
-            m_uses, lo_ok, up_ok = {}, lclass is None, py_upper_ok(nb)
+            m_uses, lo_ok, up_ok = {}, lclass is None, py_upper_ok(nb) and not has_excbind(nb)
             hist["verdict"]["use outside the model grammar (bounds only)"] += len(list(all_uses(nb)))
         hist["lower_guard"][str(lo_ok)] += 1
         hist["upper_guard"][str(up_ok)] += 1
@@ -953,6 +1065,8 @@ def run(tier: str, replay: str | None = None):
         i, u, got, mset = corr_mismatch[0]
         rep.violation({"kind": "broken-correspondence", "correspondence": "Scopes.Analysis.analyse vs NameCheckVisitor (reveal_type, undefined_name, possibly_undefined_name)",
                        "input": payload(i, u, {}), "observed": got, "model": mset}, no_failing_input=True)
+    if broken_translation and not found_input:
+        rep.violation({"kind": "broken-obligation", "theorem": "Gen/Scopes.v (translator harness/translate/scopes.py)", "detail": broken_translation}, no_failing_input=True)
     if proof is not None and not proof.ok and not found_input:
         rep.violation({"kind": "broken-obligation", "theorem": "; ".join(proof.broken), "log": proof.log[-1500:]}, no_failing_input=True)
     for m in spec_errors[:5]:
